@@ -29,6 +29,22 @@ def shaped(values, grid, how):
     return arr.reshape(grid.data_shape) if how == "struct" else arr
 
 
+def _link(c, gs, gd, data, src_mask, tmask):
+    # linear: the target mask is given to the adapter (out_mask), the consumer is flexible;
+    # nearest: the consumer demands the mask
+    via_adapter = c["kind"] == "linear" and c["tm"]
+    ada = (fm.adapters.RegridNearest() if c["kind"] == "nearest"
+           else fm.adapters.RegridLinear(fill_with_nearest=bool(c["fill"]), out_mask=tmask if via_adapter else None))
+    out, inp = fm.Output(name="Out"), fm.Input(name="In")
+    out >> ada >> inp  # pylint: disable=expression-not-assigned
+    inp.ping()
+    out.push_info(fm.Info(time=day(0), grid=gs, units="m", mask=src_mask))
+    inp.exchange_info(fm.Info(time=day(0), grid=gd, units="m",
+                              mask=tmask if (c["tm"] and not via_adapter) else fm.Mask.FLEX))
+    out.push_data(data, day(0))
+    return fm.data.get_magnitude(inp.pull_data(day(0)))[0, ...]
+
+
 def one_run(case, garbage):
     c = case["c"]
     gs = build_mesh(case["mesh"]) if c["su"] == "umixed" else build(c["src"], c["su"])
@@ -44,19 +60,18 @@ def one_run(case, garbage):
     else:
         data = vals
         src_mask = fm.Mask.NONE
-    # linear: the target mask is given to the adapter (out_mask), the consumer is flexible;
-    # nearest: the consumer demands the mask
-    via_adapter = c["kind"] == "linear" and c["tm"]
-    ada = (fm.adapters.RegridNearest() if c["kind"] == "nearest"
-           else fm.adapters.RegridLinear(fill_with_nearest=bool(c["fill"]), out_mask=tmask if via_adapter else None))
-    out, inp = fm.Output(name="Out"), fm.Input(name="In")
-    out >> ada >> inp  # pylint: disable=expression-not-assigned
-    inp.ping()
-    out.push_info(fm.Info(time=day(0), grid=gs, units="m", mask=src_mask))
-    inp.exchange_info(fm.Info(time=day(0), grid=gd, units="m",
-                              mask=tmask if (c["tm"] and not via_adapter) else fm.Mask.FLEX))
-    out.push_data(data, day(0))
-    got = fm.data.get_magnitude(inp.pull_data(day(0)))[0, ...]
+    if case.get("prime"):
+        # another adapter of the same kind used the SAME grid objects before, with another source mask
+        # (harness-level variant: what an adapter computed for one link must not leak into the next one)
+        pm = np.zeros(smask.shape, dtype=bool)
+        if not c["sm"] or not smask.ravel()[0]:
+            pm.ravel()[0] = True
+        pvals = np.where(pm, 555.0, vals)
+        try:
+            _link(c, gs, gd, np.ma.masked_array(pvals, mask=pm), pm, tmask)
+        except Exception:  # pylint: disable=broad-except
+            pass                          # the priming link is not the subject of the case
+    got = _link(c, gs, gd, data, src_mask, tmask)
     mask = np.ma.getmaskarray(got).ravel()
     raw = np.ma.getdata(got).ravel()
     res = []
@@ -82,3 +97,7 @@ def run_case(case):
     except Exception as e:  # pylint: disable=broad-except
         obs["res"] = "err:" + type(e).__name__
     return {"case": case, "obs": obs}
+
+
+def prime_variants(cases, rng):
+    return [dict(c, prime=True) for c in cases if rng.random() < 0.3]
